@@ -292,10 +292,15 @@ ADDED["C14"] = (" Added: parser kernels for newline runs and block ends - else a
                 "violated on the pinned tree and are repaired.")
 ADDED["C04"] = (" Added: the checker's desugaring table of compound assignments (x op= e is typed through the same operator), the comparison of generic arguments one by one, "
                 "and a known finding: bitwise and shift operators are typed with Any.")
-ADDED["C06"] = " Added: field_access queues a field constraint only for a non-nullable member of the receiver's type (violated on the pinned tree, repaired)."
+ADDED["C06"] = (" Added: field_access queues a field constraint only for a non-nullable member of the receiver's type; TrueName::substitute keeps the nullability of what "
+                "replaces a placeholder (both violated on the pinned tree, repaired).")
 ADDED["C07"] = (" Added: every parameter, `self` included, is recorded with the mutable flag of its own FunArg; known finding: `fin` class fields can be reassigned through an "
                 "instance or self (field_access never looks at Field::mutable).")
-ADDED["C02"] = " Added: interpolated expressions must go through the converter (known finding: they are copied verbatim into the f-string)."
+ADDED["C02"] = (" Added: interpolated expressions must go through the converter (known finding: they are copied verbatim into the f-string); six printer / converter edges that were "
+                "violated on the pinned tree and are repaired (comment-only body -> pass, `return pass`, multi-line string literal, Callable without arguments, annotated tuple "
+                "target, class argument without default behind one with a default); the lexer's brace counter in interpolated strings; the structure of the control-flow arms.")
+ADDED["C08"] = " Added: function_access must look at the exceptions a resolved method declares (known finding: raises of methods are never checked at their call sites)."
+ADDED["C20"] = " Added: a nullable member of a generic argument only counts as a subtype when the other argument admits None (violated on the pinned tree, repaired)."
 ADDED["C01"] = " Added: interpolated expressions keep their Mamba meaning (known finding, as C02: `{a ^ 2}` is emitted as xor)."
 for _k, _v in ADDED.items():
     CHECKS[_k]["text"] += _v
